@@ -37,7 +37,7 @@ ASSUMPTIONS = [
   'inexact arithmetic (Adam square roots, Welford moments, jit-vs-eager fusion) is compared with rtol=1e-5 (Welford 1e-4); everything else bytewise',
   'one fault kind: the wrapped optax transformation raises inside an eager Optimizer.update; read narrowly - a failed update is not an update, so step counter, parameters and optimizer state stay what the hand-written loop (which skipped that step) has, and the exception reaches the caller',
 ]
-PROBES = ['opt_nnx_optimizer', 'opt_nnx_trainstate', 'opt_linen_trainstate', 'step_jit', 'step_eager', 'jit_eager_alternation', 'non_wrt_edit', 'shared_param', 'multisteps', 'schedule', 'metric_average', 'metric_accuracy', 'metric_welford', 'metric_multi', 'metric_reset', 'metric_jit', 'metric_empty_nan', 'metric_repartition', 'metric_big_stream', 'mixed_precision_params', 'param_with_set_hook']
+PROBES = ['opt_nnx_optimizer', 'opt_nnx_trainstate', 'opt_linen_trainstate', 'step_jit', 'step_eager', 'jit_eager_alternation', 'non_wrt_edit', 'shared_param', 'multisteps', 'schedule', 'metric_average', 'metric_accuracy', 'metric_welford', 'metric_multi', 'metric_reset', 'metric_jit', 'metric_empty_nan', 'metric_repartition', 'metric_big_stream', 'mixed_precision_params', 'param_with_set_hook', 'linen_trainstate_overwrite_with_gradient', 'metric_low_precision_values']
 
 
 def setup_worker(w, tier):
@@ -67,7 +67,7 @@ def generate(rs, tier):
       ops.append(dict(op='edit', target=g.randrange(64), delta=g.randrange(1, 5)))
   return dict(
     engine='nnxworld',
-    knobs=dict(kind='optimizer', hooks=g.random() < 0.25, build=build, tx=g.choice(['sgd', 'momentum', 'adam', 'adamw', 'clip_sgd', 'schedule', 'multisteps']), wrapper=g.choice(['nnx.Optimizer', 'nnx.Optimizer', 'nnx.TrainState', 'linen.TrainState']), wrt=g.choice(['Param', 'Param', 'SubParam', 'ParamOrCustom']), pdtype=g.choice(['float32', 'float32', 'float32', 'bfloat16'])),
+    knobs=dict(kind='optimizer', hooks=g.random() < 0.25, owg=g.random() < 0.3, frozen=g.random() < 0.4, build=build, tx=g.choice(['sgd', 'momentum', 'adam', 'adamw', 'clip_sgd', 'schedule', 'multisteps']), wrapper=g.choice(['nnx.Optimizer', 'nnx.Optimizer', 'nnx.TrainState', 'linen.TrainState']), wrt=g.choice(['Param', 'Param', 'SubParam', 'ParamOrCustom']), pdtype=g.choice(['float32', 'float32', 'float32', 'bfloat16'])),
     ops=ops,
   )
 
@@ -84,7 +84,13 @@ def gen_metric(g):
   cuts = sorted(set(g.randrange(0, n + 1) for _ in range(g.randrange(0, 6)))) if n else []
   resets = sorted(set(g.choice(cuts) for _ in range(g.randrange(0, 2)))) if cuts else []
   cuts2 = sorted(set(g.randrange(0, n + 1) for _ in range(g.randrange(0, 6)))) if n else []
-  return dict(engine='nnxworld', knobs=dict(kind='metric', metric=g.choice(['Average', 'Accuracy_multi', 'Accuracy_binary', 'Welford', 'Multi']), vals=vals, labels=labels, jit=g.random() < 0.3), ops=[dict(op='partition', cuts=cuts, resets=resets), dict(op='partition', cuts=cuts2, resets=[])])
+  metric = g.choice(['Average', 'Accuracy_multi', 'Accuracy_binary', 'Welford', 'Multi'])
+  vdtype = 'float32'
+  if metric == 'Average' and g.random() < 0.4:
+    # mixed-precision losses: half-precision batches (small integers, every batch sum exact), float32 statistic
+    vdtype = g.choice(['bfloat16', 'float16'])
+    vals = [g.randrange(-3, 5) for _ in range(n)]
+  return dict(engine='nnxworld', knobs=dict(kind='metric', metric=metric, vdtype=vdtype, vals=vals, labels=labels, jit=g.random() < 0.3), ops=[dict(op='partition', cuts=cuts, resets=resets), dict(op='partition', cuts=cuts2, resets=[])])
 
 
 SHRINK_LISTS = ['ops']
@@ -224,6 +230,18 @@ class OptWorld:
       self.pure0 = params
       self.ref_params = jax.tree.map(lambda x: np.array(x), params)
       self.ref_state = self.tx.init(self.ref_params)
+      self.owg = None
+      if k.get('owg'):
+        # fp8-style parameters: a second collection whose "gradient" simply replaces the value
+        from flax.linen.fp8_ops import OVERWRITE_WITH_GRADIENT as OWG
+
+        self.owg = OWG
+        params = {'params': params, OWG: {'scale': np.full((2,), 1.0, np.float32)}}
+        if k.get('frozen'):
+          import flax
+
+          params = flax.core.freeze(params)
+        res.probe('linen_trainstate_overwrite_with_gradient')
       self.ts = train_state.TrainState.create(apply_fn=lambda *a: None, params=params, tx=self.tx)
       self.jit_update = jax.jit(lambda ts, g: ts.apply_gradients(grads=g))
 
@@ -273,8 +291,17 @@ class OptWorld:
     self.last_mode = jit
     exact = self.exact_tx and not jit
     grads = self.grads_like(self.ref_params, op['gseed'])
+    ref_grads = grads
+    owg_val = None
+    if self.wrapper == 'linen.TrainState' and getattr(self, 'owg', None):
+      owg_val = np.full((2,), float(op['gseed'] % 7) - 3.0, np.float32)
+      grads = {'params': grads, self.owg: {'scale': owg_val}}
+      if self.plan['knobs'].get('frozen'):
+        import flax
+
+        grads = flax.core.freeze(grads)  # gradients have the container types of the parameters
     # reference: the hand-written loop on copies
-    updates, new_state = self.tx.update(grads, self.ref_state, self.ref_params)
+    updates, new_state = self.tx.update(ref_grads, self.ref_state, self.ref_params)
     new_params = optax.apply_updates(self.ref_params, updates)
     where = f'op {oi} step(jit={jit})'
     if self.wrapper == 'nnx.Optimizer':
@@ -307,7 +334,12 @@ class OptWorld:
         raise Violation('functional-state-mutated', f'{where}: the old train state changed')
       if int(new.step) != int(old.step) + 1:
         raise Violation('step-counter-wrong', f'{where}: step went from {int(old.step)} to {int(new.step)}')
-      if not tree_close(new.params, new_params, exact):
+      got_params = new.params
+      if owg_val is not None:
+        if sorted(new.params.keys()) != sorted(['params', self.owg]) or np.asarray(new.params[self.owg]['scale']).tobytes() != owg_val.tobytes():
+          raise Violation('params-differ-from-optax-loop', f'{where}: the overwrite-with-gradient collection does not hold the gradient passed in')
+        got_params = new.params['params']
+      if not tree_close(got_params, new_params, exact):
         raise Violation('params-differ-from-optax-loop', f'{where}: parameters after apply_gradients differ from the hand-written loop ({self.plan["knobs"]["tx"]})')
       if not tree_close(new.opt_state, new_state, exact):
         raise Violation('opt-state-differs-from-optax-loop', f'{where}: optimizer state differs from the hand-written loop')
@@ -367,6 +399,8 @@ def run_metric(plan, res, log):
 
     def feed(mm, lo, hi):
       v = jnp.asarray(vals[lo:hi], jnp.float32)
+      if k.get('vdtype', 'float32') != 'float32':
+        v = v.astype(k['vdtype'])
       lab = jnp.asarray(labels[lo:hi], jnp.int32)
       if kind == 'Accuracy_binary':
         mm.update(logits=v, labels=lab)
@@ -395,6 +429,8 @@ def run_metric(plan, res, log):
         since = c
         res.probe('metric_reset')
     got = m.compute()
+    if k.get('vdtype', 'float32') != 'float32':
+      res.probe('metric_low_precision_values')
     seen = list(vals[since:pos]) if not k.get('big') else vals[since:pos]
     where = f'partition {pi} (cuts {part["cuts"]}, resets {part["resets"]})'
     if kind == 'Multi':
